@@ -373,6 +373,7 @@ type c14env struct {
 	idx       int
 	mine      int
 	pass      int
+	core      bool
 	stop      bool
 }
 
@@ -633,7 +634,12 @@ func (e *c14env) want(id string) bool {
 	// two passes over the whole enumeration: the first takes every 8th configuration of this
 	// shard, the second the rest, so that an internal deadline leaves a sample of every family
 	e.mine++
-	if (e.mine%8 == 0) != (e.pass == 0) {
+	if e.core {
+		// the collision core is not sampled: it runs completely in the first pass
+		if e.pass != 0 {
+			return false
+		}
+	} else if (e.mine%8 == 0) != (e.pass == 0) {
 		return false
 	}
 	if e.child != nil && !e.only[id] {
@@ -894,7 +900,7 @@ func (e *c14env) familyH() {
 	r := e.r
 	hosts := []string{"a.com", "A.com", "a.com.", "b.com", "*.a.com", "*.A.com"}
 	tags := []string{"t1", "t2"}
-	maxEntries := r.Pick(3, 4)
+	maxEntries := r.Pick(2, 4)
 	var slots []c14hostEntry
 	for _, h := range hosts {
 		for _, t := range tags {
@@ -928,6 +934,60 @@ func (e *c14env) familyH() {
 							vk.Key("H", sel, tp1, tp2, bg, def), route, cc, probes)
 					}
 				}
+			}
+		}
+	})
+}
+
+// family HC ("collision core", always completed, runs first): tags {"", t1, t2} x the spelling
+// variants of one host (+ one other host), every set of <=2 (thorough <=3) entries, every used tag
+// under {no product, p1, p2, p1 and p2}, with/without background tags.
+func (e *c14env) familyHC() {
+	r := e.r
+	hosts := []string{"a.com", "A.com", "a.com.", "b.com"}
+	tags := []string{"", "t1", "t2"}
+	maxEntries := r.Pick(2, 3)
+	var slots []c14hostEntry
+	for _, h := range hosts {
+		for _, t := range tags {
+			slots = append(slots, c14hostEntry{h, t})
+		}
+	}
+	tagProducts := [][]string{nil, {"p1"}, {"p2"}, {"p1", "p2"}}
+	route := c14advRoute(map[string][][2]string{
+		"p1": {{`req_host_tag_in("t2")`, "c3"}, {"default_t()", "c1"}},
+		"p2": {{"default_t()", "c2"}},
+	}, []string{"p1", "p2"})
+	cc := c14clusterConf(false, false, "c1", "c2", "c3")
+	probes := []c14probe{{host: "a.com", path: "/"}, {host: "A.COM", path: "/"}, {host: "a.com.", path: "/"}, {host: "a.com:8080", path: "/"},
+		{host: "b.com", path: "/"}, {host: "p1.only", path: "/"}, {host: "p2.only", path: "/"}, {host: "zzz.org", path: "/"}}
+	r.Set("HC.alphabet", fmt.Sprintf("hosts %v x tags %q, <=%d (host,tag) entries; each tag that is used under %v; background tags {with,without}", hosts, tags, maxEntries, tagProducts))
+	c14subsets(len(slots), maxEntries, func(sel []int) {
+		entries := make([]c14hostEntry, len(sel))
+		var used []string
+		for i, s := range sel {
+			entries[i] = slots[s]
+			seen := false
+			for _, u := range used {
+				seen = seen || u == slots[s].tag
+			}
+			if !seen {
+				used = append(used, slots[s].tag)
+			}
+		}
+		n := 1
+		for range used {
+			n *= len(tagProducts)
+		}
+		for code := 0; code < n; code++ {
+			tp := map[string][]string{}
+			c := code
+			for _, u := range used {
+				tp[u] = tagProducts[c%len(tagProducts)]
+				c /= len(tagProducts)
+			}
+			for bg := 0; bg < 2; bg++ {
+				e.oneH(entries, tp, bg == 1, "", vk.Key("HC", sel, code, bg), route, cc, probes)
 			}
 		}
 	})
@@ -986,6 +1046,11 @@ func (e *c14env) oneH(entries []c14hostEntry, tagProds map[string][]string, bg b
 					for _, o := range entries {
 						if o.tag != "" && o.host == en.host {
 							return "same-host-under-empty-tag-and-named-tag"
+						}
+					}
+					for _, o := range entries {
+						if o.tag != "" && c14canonHost(o.host) == c14canonHost(en.host) {
+							return "host-spellings-under-empty-tag-and-named-tag"
 						}
 					}
 				}
@@ -1557,6 +1622,9 @@ func (e *c14env) families() {
 func (e *c14env) familiesOnce() {
 	// the largest family last: an internal deadline then cuts only its tail
 	e.familyS()
+	e.core = true
+	e.familyHC()
+	e.core = false
 	e.familyHE()
 	e.familyV()
 	e.familyG()
